@@ -12,6 +12,7 @@ import (
 	"crypto/x509"
 	"fmt"
 	"os"
+	"strings"
 	"testing"
 	"time"
 
@@ -135,6 +136,9 @@ func c19wRun(c c19wCase) (viol string, harness error) {
 	}
 	w, err := vfNewMuxWorldTLS(srvTLS, encryption.TLSConfig{CertificatePath: peerCertPath, KeyPath: peerKeyPath, RemoteCAPath: caPath, CAServerName: "proxy.internal.example"}, want)
 	if err != nil {
+		if want && strings.Contains(err.Error(), "did not come up") {
+			return fmt.Sprintf("TLS mux listener (verification %v) and an establishing peer with credential %q that verifies the listener against the configured CA and name: no session was established within 15 s (%v)", c.Verify, c.Peer, err), nil
+		}
 		return "", err
 	}
 	defer w.Close()
